@@ -2,19 +2,26 @@
 //!
 //! * helper calls (`kind = "fn"`): the public functions of `mutation::functional` and
 //!   `recombination::functional` are called with the logged arguments; the reply is recorded.
+//!   `arith_x` calls `arithmetic_crossover` on genes from a table of extreme finite values (`LADDER`)
+//!   with alphas from `ALPHAS`; genes are logged as ranks, child genes as position classes.
 //! * component executions (`kind = "comp"`): every mutation / recombination component is built
-//!   through its public constructor and run (`init`, `require`, `execute`) on a prepared `State`
-//!   (`Populations`, seeded `Random`); the populations before and after are recorded in the
-//!   projections described in `spec/Variation.tla`.
+//!   through one of its public constructors (all of them are swept), for the identifier-generic
+//!   components under the identifiers `Global`, `A`, `B` with sibling instances of other
+//!   identifiers initialised in the same `State` and the `MutationRate` / `MutationStrength`
+//!   states adapted through the state; it is run (`init`, `require`, `execute`) on a prepared
+//!   `State` (`Populations`, seeded `Random`); the constructor arguments, the populations before
+//!   and after and the parameter states read back are recorded in the projections described in
+//!   `spec/Variation.tla`.  Which parameters the execution has to obey is derived by the spec.
 //!
 //! Everything is decided by TLC (trace validation); this file only records.  Panics of the code
 //! under test are data (`k = "panic"`); every case runs on a worker thread under a watchdog and a
 //! case that does not return within the limit is recorded as `k = "timeout"`.
 use mahf::{
     components::{
-        mutation::{common as mc, de as mde, functional as mf},
+        mutation::{common as mc, de as mde, functional as mf, MutationRate, MutationStrength},
         recombination::{common as rc, de as rde, functional as rf},
     },
+    identifier::{Global, A, B},
     state::common::Populations,
     Component, ExecResult, Individual, Problem, Random, State,
 };
@@ -26,10 +33,91 @@ use serde_json::{json, Value};
 
 use crate::{
     problems_var::{BitsVar, PermVar, RealVar},
-    util::{caught, read_ndjson, rng, Args, Out},
+    util::{caught, read_ndjson, rng, Args, Out, NOVAL},
 };
 
 const BAD: i64 = 777_777; // a float that should have been an integer and was not
+
+/// Extreme / far-apart finite genes, strictly increasing; a gene is logged as its 1-based rank.
+pub const LADDER: [f64; 21] = [
+    -f64::MAX,
+    -1.0e308,
+    -1.0e300,
+    -1.0e17,
+    -7.0e9,
+    -3.0,
+    -1.0,
+    -0.1,
+    -2.5e-7,
+    -f64::MIN_POSITIVE,
+    0.0,
+    f64::MIN_POSITIVE,
+    2.5e-7,
+    0.1,
+    1.0,
+    3.0,
+    7.0e9,
+    1.0e16,
+    1.0e17,
+    1.0e308,
+    f64::MAX,
+];
+
+/// Alphas, strictly increasing from exactly 0 to exactly 1; an alpha is logged as its index
+/// (`AlphaTop` of the spec = 8).
+pub fn alphas() -> [f64; 9] {
+    [0.0, (2.0f64).powi(-60), 0.1, 0.25, 0.5, 0.75, 0.9, 1.0 - (2.0f64).powi(-53), 1.0]
+}
+
+/// Valid strengths (std_dev / bound), logged as 1-based index; index 9 = NaN (invalid).
+const STRENGTHS: [f64; 4] = [0.125, 0.5, 2.0, 8.0];
+const ST_BAD: i64 = 9;
+
+fn st_value(ix: i64) -> f64 {
+    if (1..=4).contains(&ix) {
+        STRENGTHS[ix as usize - 1]
+    } else {
+        f64::NAN
+    }
+}
+
+fn st_index(x: f64) -> i64 {
+    STRENGTHS.iter().position(|s| s.to_bits() == x.to_bits()).map(|k| k as i64 + 1).unwrap_or(ST_BAD)
+}
+
+const ULPS: f64 = 4.0 * f64::EPSILON;
+
+/// P-class of a child gene relative to the interval of the two parental genes, each end widened
+/// by 4 ulp of itself: 0 finite and between, 1 below, 2 above, 3 NaN, 4 infinite.
+fn hull_class(c: f64, a: f64, b: f64) -> i64 {
+    if c.is_nan() {
+        return 3;
+    }
+    if c.is_infinite() {
+        return 4;
+    }
+    let (lo, hi) = (a.min(b), a.max(b));
+    if c < lo - ULPS * lo.abs() {
+        1
+    } else if c > hi + ULPS * hi.abs() {
+        2
+    } else {
+        0
+    }
+}
+
+/// P-pred: `c` is within 4 ulp of the gene `g`.
+fn near(c: f64, g: f64) -> bool {
+    c.is_finite() && (c - g).abs() <= ULPS * g.abs()
+}
+
+/// P-pred: the children sum to the sum of the parental genes (halves: no overflow), up to
+/// 8 ulp of the larger parental magnitude.
+fn conserved(c1: f64, c2: f64, p: f64, q: f64) -> bool {
+    c1.is_finite()
+        && c2.is_finite()
+        && ((c1 / 2.0 + c2 / 2.0) - (p / 2.0 + q / 2.0)).abs() <= ULPS * p.abs().max(q.abs()) + 4.0 * 5e-324
+}
 
 // ------------------------------------------------------------------------------------ helpers
 
@@ -114,6 +202,24 @@ fn exec_fn(act: &Value) -> Value {
                 c2.iter().map(|&x| as_int(4.0 * x)).collect(),
             ]
         })),
+        "arith_x" => two(caught(|| {
+            let al = alphas();
+            let pf: Vec<f64> = p.iter().map(|&k| LADDER[k as usize - 1]).collect();
+            let qf: Vec<f64> = q.iter().map(|&k| LADDER[k as usize - 1]).collect();
+            let af: Vec<f64> = ix.iter().map(|&k| al[k as usize]).collect();
+            let [c1, c2] = rf::arithmetic_crossover(&pf, &qf, &af);
+            let code = |c: &[f64], j: usize| -> i64 {
+                let other = |v: &[f64]| v.get(j).copied().unwrap_or(f64::NAN);
+                hull_class(c[j], pf[j], qf[j])
+                    + 10 * near(c[j], pf[j]) as i64
+                    + 20 * near(c[j], qf[j]) as i64
+                    + 40 * conserved(other(&c1), other(&c2), pf[j], qf[j]) as i64
+            };
+            [
+                (0..c1.len()).map(|j| if j < pf.len() { code(&c1, j) } else { BAD }).collect(),
+                (0..c2.len()).map(|j| if j < pf.len() { code(&c2, j) } else { BAD }).collect(),
+            ]
+        })),
         "cycle" => two(caught(|| rf::cycle_crossover(&p, &q))),
         other => panic!("unknown helper {other}"),
     }
@@ -141,10 +247,163 @@ pub const COMPS: [&str; 17] = [
     "DEExponentialCrossover",
 ];
 
+/// The public constructors of a component (every `pub fn` returning the component in its `impl`
+/// blocks); `checks/c13.py` compares this sweep with the spec's table and with the source.
+pub fn ctors(c: &str) -> &'static [&'static str] {
+    match c {
+        "NormalMutation" => &["new", "new_with_id", "from_params", "new_dev"],
+        "UniformMutation" => &["new", "new_with_id", "from_params", "new_bound"],
+        "BitFlipMutation" => &["new", "new_with_id", "from_params"],
+        "PartialRandomSpread" | "ScrambleMutation" => &["new", "new_with_id", "from_params", "new_full"],
+        "PartialRandomBitstring" => {
+            &["new", "new_with_id", "from_params", "new_uniform", "new_full", "new_uniform_full"]
+        }
+        "NPointCrossover" | "UniformCrossover" | "CycleCrossover" | "ArithmeticCrossover" => {
+            &["new", "from_params", "new_insert_single", "new_insert_both"]
+        }
+        _ => &["new", "from_params"],
+    }
+}
+
+const IDS: [&str; 3] = ["Global", "A", "B"];
+
+fn has_id(c: &str) -> bool {
+    matches!(
+        c,
+        "NormalMutation"
+            | "UniformMutation"
+            | "PartialRandomSpread"
+            | "BitFlipMutation"
+            | "PartialRandomBitstring"
+            | "ScrambleMutation"
+    )
+}
+
+fn has_strength(c: &str) -> bool {
+    matches!(c, "NormalMutation" | "UniformMutation")
+}
+
+fn is_cross(c: &str) -> bool {
+    matches!(c, "NPointCrossover" | "UniformCrossover" | "CycleCrossover" | "ArithmeticCrossover")
+}
+
+/// Binds the type alias `$I` to the identifier type named by `$id` and evaluates `$body`.
+macro_rules! by_id {
+    ($id:expr, $I:ident, $body:expr) => {
+        match $id {
+            "Global" => {
+                type $I = Global;
+                $body
+            }
+            "A" => {
+                type $I = A;
+                $body
+            }
+            "B" => {
+                type $I = B;
+                $body
+            }
+            other => panic!("unknown identifier {other}"),
+        }
+    };
+}
+
+/// Binds the type alias `$T` to the identifier-generic component `$c<$id>` and evaluates `$body`.
+macro_rules! by_comp {
+    ($c:expr, $id:expr, $T:ident, $body:expr) => {
+        match $c {
+            "NormalMutation" => by_id!($id, I, {
+                type $T = mc::NormalMutation<I>;
+                $body
+            }),
+            "UniformMutation" => by_id!($id, I, {
+                type $T = mc::UniformMutation<I>;
+                $body
+            }),
+            "PartialRandomSpread" => by_id!($id, I, {
+                type $T = mc::PartialRandomSpread<I>;
+                $body
+            }),
+            "BitFlipMutation" => by_id!($id, I, {
+                type $T = mc::BitFlipMutation<I>;
+                $body
+            }),
+            "PartialRandomBitstring" => by_id!($id, I, {
+                type $T = mc::PartialRandomBitstring<I>;
+                $body
+            }),
+            "ScrambleMutation" => by_id!($id, I, {
+                type $T = mc::ScrambleMutation<I>;
+                $body
+            }),
+            other => panic!("{other} has no identifier"),
+        }
+    };
+}
+
+fn set_rate<P: Problem>(c: &str, id: &str, state: &State<P>, v: f64) {
+    by_comp!(c, id, T, {
+        state.set_value::<MutationRate<T>>(v);
+    })
+}
+
+fn set_strength<P: Problem>(c: &str, id: &str, state: &State<P>, v: f64) {
+    by_comp!(c, id, T, {
+        state.set_value::<MutationStrength<T>>(v);
+    })
+}
+
+fn get_rate<P: Problem>(c: &str, id: &str, state: &State<P>) -> Option<f64> {
+    by_comp!(c, id, T, state.try_get_value::<MutationRate<T>>().ok())
+}
+
+fn get_strength<P: Problem>(c: &str, id: &str, state: &State<P>) -> Option<f64> {
+    by_comp!(c, id, T, state.try_get_value::<MutationStrength<T>>().ok())
+}
+
+/// The parameter states of component `c` for Global, A, B: [[class of the rate, index of the
+/// strength], ..], NOVAL where the state is missing.
+fn read_reg<P: Problem>(c: &str, state: &State<P>) -> Value {
+    if !has_id(c) {
+        return json!([]);
+    }
+    Value::Array(
+        IDS.iter()
+            .map(|id| {
+                let r = get_rate(c, id, state).map(pclass).unwrap_or(NOVAL);
+                let s = get_strength(c, id, state).map(st_index).unwrap_or(NOVAL);
+                json!([r, s])
+            })
+            .collect(),
+    )
+}
+
+/// Another instance of the same component under another identifier in the same state.
+#[derive(Clone, Debug)]
+struct Sib {
+    id: String,
+    rate: f64,
+    st: i64,
+    /// initialised after the executed instance (else before)
+    after: bool,
+}
+
+/// `MutationRate` (`w = 1`, value `rate`) or `MutationStrength` (`w = 2`, ladder index `st`) of
+/// identifier `id` written through the state after all instances have been initialised.
+#[derive(Clone, Debug)]
+struct Adapt {
+    id: String,
+    w: i64,
+    rate: f64,
+    st: i64,
+}
+
 /// Everything needed to re-execute one component case deterministically.
 #[derive(Clone, Debug)]
 struct Raw {
     c: String,
+    ctor: String,
+    id: String,
     seed: u64,
     n: usize,
     dim: usize,
@@ -152,17 +411,36 @@ struct Raw {
     rate: f64,
     p: f64,
     both: bool,
+    /// DEMutation: f
     strength: f64,
+    /// Normal-/UniformMutation: ladder index of std_dev / bound
+    st: i64,
+    sibs: Vec<Sib>,
+    adapt: Vec<Adapt>,
+    /// real populations drawn from `LADDER` instead of the box [-4, 12)
+    ext: bool,
 }
 
 impl Raw {
     fn to_json(&self) -> Value {
-        json!({"c": self.c, "seed": self.seed, "n": self.n, "dim": self.dim, "np": self.np,
-               "rate": self.rate, "p": self.p, "both": self.both, "strength": self.strength})
+        let sibs: Vec<Value> = self
+            .sibs
+            .iter()
+            .map(|s| json!({"id": s.id, "rate": s.rate, "st": s.st, "after": s.after}))
+            .collect();
+        let adapt: Vec<Value> =
+            self.adapt.iter().map(|a| json!({"id": a.id, "w": a.w, "rate": a.rate, "st": a.st})).collect();
+        json!({"c": self.c, "ctor": self.ctor, "id": self.id, "seed": self.seed, "n": self.n, "dim": self.dim,
+               "np": self.np, "rate": self.rate, "p": self.p, "both": self.both, "strength": self.strength,
+               "st": self.st, "sibs": sibs, "adapt": adapt, "ext": self.ext})
     }
     fn from_json(v: &Value) -> Self {
+        let c = v["c"].as_str().unwrap().to_string();
+        let strength = v["strength"].as_f64().unwrap();
+        let arr = |k: &str| v.get(k).and_then(|x| x.as_array()).cloned().unwrap_or_default();
         Raw {
-            c: v["c"].as_str().unwrap().to_string(),
+            ctor: v.get("ctor").and_then(|x| x.as_str()).unwrap_or("new").to_string(),
+            id: v.get("id").and_then(|x| x.as_str()).unwrap_or("Global").to_string(),
             seed: v["seed"].as_u64().unwrap(),
             n: v["n"].as_u64().unwrap() as usize,
             dim: v["dim"].as_u64().unwrap() as usize,
@@ -170,7 +448,34 @@ impl Raw {
             rate: v["rate"].as_f64().unwrap(),
             p: v["p"].as_f64().unwrap(),
             both: v["both"].as_bool().unwrap(),
-            strength: v["strength"].as_f64().unwrap(),
+            strength,
+            st: v.get("st").and_then(|x| x.as_i64()).unwrap_or_else(|| {
+                if has_strength(&c) {
+                    st_index(strength)
+                } else {
+                    0
+                }
+            }),
+            sibs: arr("sibs")
+                .iter()
+                .map(|s| Sib {
+                    id: s["id"].as_str().unwrap().to_string(),
+                    rate: s["rate"].as_f64().unwrap(),
+                    st: s["st"].as_i64().unwrap(),
+                    after: s["after"].as_bool().unwrap(),
+                })
+                .collect(),
+            adapt: arr("adapt")
+                .iter()
+                .map(|a| Adapt {
+                    id: a["id"].as_str().unwrap().to_string(),
+                    w: a["w"].as_i64().unwrap(),
+                    rate: a["rate"].as_f64().unwrap(),
+                    st: a["st"].as_i64().unwrap(),
+                })
+                .collect(),
+            ext: v.get("ext").and_then(|x| x.as_bool()).unwrap_or(false),
+            c,
         }
     }
 }
@@ -188,35 +493,189 @@ fn pclass(x: f64) -> i64 {
     }
 }
 
+type Boxed<P> = Box<dyn Component<P>>;
+
+fn boxed<P: Problem, T: Component<P> + 'static>(t: T) -> Boxed<P> {
+    Box::new(t)
+}
+
+/// Real-valued mutations through every public constructor.
+fn make_real(c: &str, ctor: &str, id: &str, s: f64, rate: f64) -> Boxed<RealVar> {
+    match (c, ctor) {
+        ("NormalMutation", "new") => mc::NormalMutation::new::<RealVar>(s, rate),
+        ("NormalMutation", "new_dev") => mc::NormalMutation::new_dev::<RealVar>(s),
+        ("NormalMutation", "new_with_id") => {
+            by_id!(id, I, mc::NormalMutation::<I>::new_with_id::<RealVar>(s, rate))
+        }
+        ("NormalMutation", "from_params") => by_id!(id, I, boxed(mc::NormalMutation::<I>::from_params(s, rate))),
+        ("UniformMutation", "new") => mc::UniformMutation::new::<RealVar>(s, rate),
+        ("UniformMutation", "new_bound") => mc::UniformMutation::new_bound::<RealVar>(s),
+        ("UniformMutation", "new_with_id") => {
+            by_id!(id, I, mc::UniformMutation::<I>::new_with_id::<RealVar>(s, rate))
+        }
+        ("UniformMutation", "from_params") => {
+            by_id!(id, I, boxed(mc::UniformMutation::<I>::from_params(s, rate)))
+        }
+        ("PartialRandomSpread", "new") => mc::PartialRandomSpread::new::<RealVar>(rate),
+        ("PartialRandomSpread", "new_full") => mc::PartialRandomSpread::new_full::<RealVar>(),
+        ("PartialRandomSpread", "new_with_id") => {
+            by_id!(id, I, mc::PartialRandomSpread::<I>::new_with_id::<RealVar>(rate))
+        }
+        ("PartialRandomSpread", "from_params") => {
+            by_id!(id, I, boxed(mc::PartialRandomSpread::<I>::from_params(rate)))
+        }
+        other => panic!("unknown constructor {other:?}"),
+    }
+}
+
+/// Bit-string mutations through every public constructor.
+fn make_bits(c: &str, ctor: &str, id: &str, p: f64, rate: f64) -> Boxed<BitsVar> {
+    match (c, ctor) {
+        ("BitFlipMutation", "new") => mc::BitFlipMutation::new::<BitsVar>(rate),
+        ("BitFlipMutation", "new_with_id") => by_id!(id, I, mc::BitFlipMutation::<I>::new_with_id::<BitsVar>(rate)),
+        ("BitFlipMutation", "from_params") => by_id!(id, I, boxed(mc::BitFlipMutation::<I>::from_params(rate))),
+        ("PartialRandomBitstring", "new") => mc::PartialRandomBitstring::new::<BitsVar>(p, rate),
+        ("PartialRandomBitstring", "new_uniform") => mc::PartialRandomBitstring::new_uniform::<BitsVar>(rate),
+        ("PartialRandomBitstring", "new_full") => mc::PartialRandomBitstring::new_full::<BitsVar>(p),
+        ("PartialRandomBitstring", "new_uniform_full") => {
+            mc::PartialRandomBitstring::new_uniform_full::<BitsVar>()
+        }
+        ("PartialRandomBitstring", "new_with_id") => {
+            by_id!(id, I, mc::PartialRandomBitstring::<I>::new_with_id::<BitsVar>(p, rate))
+        }
+        ("PartialRandomBitstring", "from_params") => {
+            by_id!(id, I, boxed(mc::PartialRandomBitstring::<I>::from_params(p, rate)))
+        }
+        other => panic!("unknown constructor {other:?}"),
+    }
+}
+
+/// Permutation mutations through every public constructor.
+fn make_perm(c: &str, ctor: &str, id: &str, rate: f64, np: i64) -> ExecResult<Boxed<PermVar>> {
+    Ok(match (c, ctor) {
+        ("ScrambleMutation", "new") => mc::ScrambleMutation::new::<PermVar>(rate),
+        ("ScrambleMutation", "new_full") => mc::ScrambleMutation::new_full::<PermVar>(),
+        ("ScrambleMutation", "new_with_id") => {
+            by_id!(id, I, mc::ScrambleMutation::<I>::new_with_id::<PermVar>(rate))
+        }
+        ("ScrambleMutation", "from_params") => by_id!(id, I, boxed(mc::ScrambleMutation::<I>::from_params(rate))),
+        ("SwapMutation", "new") => mc::SwapMutation::new::<PermVar>(np as u32)?,
+        ("SwapMutation", "from_params") => boxed(mc::SwapMutation::from_params(np as u32)?),
+        ("InversionMutation", "new") => mc::InversionMutation::new::<PermVar, ()>(),
+        ("InversionMutation", "from_params") => boxed(mc::InversionMutation::from_params()),
+        ("InsertionMutation", "new") => mc::InsertionMutation::new::<PermVar>(),
+        ("InsertionMutation", "from_params") => boxed(mc::InsertionMutation::from_params()),
+        ("TranslocationMutation", "new") => mc::TranslocationMutation::new::<PermVar>(),
+        ("TranslocationMutation", "from_params") => boxed(mc::TranslocationMutation::from_params()),
+        other => panic!("unknown constructor {other:?}"),
+    })
+}
+
+/// Gene-exchanging crossovers through every public constructor.
+fn make_genex(c: &str, ctor: &str, np: usize, pc: f64, both: bool) -> Boxed<PermVar> {
+    match (c, ctor) {
+        ("NPointCrossover", "new") => rc::NPointCrossover::new::<PermVar, usize>(np, pc, both),
+        ("NPointCrossover", "from_params") => boxed(rc::NPointCrossover::from_params(np, pc, both)),
+        ("NPointCrossover", "new_insert_single") => rc::NPointCrossover::new_insert_single::<PermVar, usize>(np, pc),
+        ("NPointCrossover", "new_insert_both") => rc::NPointCrossover::new_insert_both::<PermVar, usize>(np, pc),
+        ("UniformCrossover", "new") => rc::UniformCrossover::new::<PermVar, usize>(pc, both),
+        ("UniformCrossover", "from_params") => boxed(rc::UniformCrossover::from_params(pc, both)),
+        ("UniformCrossover", "new_insert_single") => rc::UniformCrossover::new_insert_single::<PermVar, usize>(pc),
+        ("UniformCrossover", "new_insert_both") => rc::UniformCrossover::new_insert_both::<PermVar, usize>(pc),
+        ("CycleCrossover", "new") => rc::CycleCrossover::new::<PermVar, usize>(pc, both),
+        ("CycleCrossover", "from_params") => boxed(rc::CycleCrossover::from_params(pc, both)),
+        ("CycleCrossover", "new_insert_single") => rc::CycleCrossover::new_insert_single::<PermVar, usize>(pc),
+        ("CycleCrossover", "new_insert_both") => rc::CycleCrossover::new_insert_both::<PermVar, usize>(pc),
+        other => panic!("unknown constructor {other:?}"),
+    }
+}
+
+/// Real-valued recombination / DE components through every public constructor.
+fn make_realx(c: &str, ctor: &str, np: i64, pc: f64, both: bool, f: f64) -> ExecResult<Boxed<RealVar>> {
+    Ok(match (c, ctor) {
+        ("ArithmeticCrossover", "new") => rc::ArithmeticCrossover::new::<RealVar>(pc, both),
+        ("ArithmeticCrossover", "from_params") => boxed(rc::ArithmeticCrossover::from_params(pc, both)),
+        ("ArithmeticCrossover", "new_insert_single") => rc::ArithmeticCrossover::new_insert_single::<RealVar>(pc),
+        ("ArithmeticCrossover", "new_insert_both") => rc::ArithmeticCrossover::new_insert_both::<RealVar>(pc),
+        ("DEMutation", "new") => mde::DEMutation::new::<RealVar>(np as u32, f)?,
+        ("DEMutation", "from_params") => boxed(mde::DEMutation::from_params(np as u32, f)?),
+        ("DEBinomialCrossover", "new") => rde::DEBinomialCrossover::new::<RealVar>(pc),
+        ("DEBinomialCrossover", "from_params") => boxed(rde::DEBinomialCrossover::from_params(pc)),
+        ("DEExponentialCrossover", "new") => rde::DEExponentialCrossover::new::<RealVar>(pc),
+        ("DEExponentialCrossover", "from_params") => boxed(rde::DEExponentialCrossover::from_params(pc)),
+        other => panic!("unknown constructor {other:?}"),
+    })
+}
+
 struct Outcome<E> {
     k: &'static str,
     top: Vec<E>,
     below: Vec<E>,
     h: usize,
+    reg: Value,
+    built: Value,
 }
 
-/// Builds the component, prepares a state (population stack bottom first, seeded `Random`) and
-/// runs `init`, `require`, `execute` as `Configuration` would.
+/// Class of `PartialRandomBitstring::p`: as `pclass`, exactly 0.5 = 5.
+fn pclass2(x: f64) -> i64 {
+    if x == 0.5 {
+        5
+    } else {
+        pclass(x)
+    }
+}
+
+/// The parameters of the built instance as it serialises them: [class of rm / pc, class of p,
+/// insert_both, index of std_dev / bound, num_swap / n / y], 0 where there is no such field.
+fn read_built<P: Problem>(c: &str, comp: &Boxed<P>) -> Value {
+    let v = serde_json::to_value(comp).unwrap_or(Value::Null);
+    let num = |k: &str| v.get(k).map(|x| x.as_f64().unwrap_or(f64::NAN));
+    let rate = num("rm").or(num("pc")).map(pclass).unwrap_or(0);
+    let p = num("p").map(pclass2).unwrap_or(0);
+    let both = v.get("insert_both").and_then(|x| x.as_bool()).map(|b| b as i64).unwrap_or(0);
+    let st = if has_strength(c) { num("std_dev").or(num("bound")).map(st_index).unwrap_or(BAD) } else { 0 };
+    let np = v.get("num_swap").or(v.get("n")).or(v.get("y")).and_then(|x| x.as_i64()).unwrap_or(0);
+    json!([rate, p, both, st, np])
+}
+
+/// Builds the component, prepares a state (population stack bottom first, seeded `Random`),
+/// initialises the sibling instances and the component in the recorded order, writes the
+/// adaptations, and runs `require`, `execute` as `Configuration` would.
 fn run_comp<P: Problem>(
     problem: &P,
-    make: impl FnOnce() -> ExecResult<Box<dyn Component<P>>>,
-    seed: u64,
+    raw: &Raw,
+    make: impl FnOnce() -> ExecResult<Boxed<P>>,
+    sibling: impl Fn(&Sib) -> Boxed<P>,
     pops: Vec<Vec<P::Encoding>>,
 ) -> Outcome<P::Encoding> {
     let mut state: State<'static, P> = State::new();
     state.insert(Populations::<P>::new());
-    state.insert(Random::new(seed));
+    state.insert(Random::new(raw.seed));
     for pop in pops {
         let inds: Vec<Individual<P>> = pop.into_iter().map(Individual::new_unevaluated).collect();
         state.populations_mut().push(inds);
     }
+    let mut built = json!([]);
     let k = match caught(|| make()) {
         Err(_) => "panic",
         Ok(Err(_)) => "ctor_err",
         Ok(Ok(comp)) => {
+            built = read_built(&raw.c, &comp);
             let st = &mut state;
             match caught(move || -> ExecResult<()> {
+                for s in raw.sibs.iter().filter(|s| !s.after) {
+                    sibling(s).init(problem, st)?;
+                }
                 comp.init(problem, st)?;
+                for s in raw.sibs.iter().filter(|s| s.after) {
+                    sibling(s).init(problem, st)?;
+                }
+                for a in &raw.adapt {
+                    match a.w {
+                        1 => set_rate(&raw.c, &a.id, st, a.rate),
+                        _ => set_strength(&raw.c, &a.id, st, st_value(a.st)),
+                    }
+                }
                 comp.require(problem, &st.requirements())?;
                 comp.execute(problem, st)
             }) {
@@ -226,6 +685,10 @@ fn run_comp<P: Problem>(
             }
         }
     };
+    let reg = if matches!(k, "ok" | "err") { read_reg(&raw.c, &state) } else { json!([]) };
+    if !matches!(k, "ok" | "err") {
+        built = json!([]);
+    }
     let pops = state.populations();
     let h = pops.len();
     let sols = |d: usize| -> Vec<P::Encoding> {
@@ -233,7 +696,11 @@ fn run_comp<P: Problem>(
     };
     let top = if h >= 1 { sols(0) } else { vec![] };
     let below = if h >= 2 { sols(1) } else { vec![] };
-    Outcome { k, top, below, h }
+    Outcome { k, top, below, h, reg, built }
+}
+
+fn no_sibling<P: Problem>(_: &Sib) -> Boxed<P> {
+    panic!("component without identifier has no siblings")
 }
 
 fn grid<T: Copy + Into<Value>>(v: &[Vec<T>]) -> Value {
@@ -248,14 +715,56 @@ fn close(x: f64, y: f64, scale: f64) -> bool {
     (x - y).abs() <= 1e-9 * scale.max(1.0)
 }
 
-fn act_json(raw: &Raw, pr: i64, p2: i64, pin: Value, base: Value) -> Value {
+/// The case as the spec sees it: the constructor and the arguments GIVEN to it (NOVAL for an
+/// argument the constructor does not take), identifier, siblings and adaptations by class.
+fn act_json(raw: &Raw, pin: Value, base: Value) -> Value {
+    let c = raw.c.as_str();
+    let ctor = raw.ctor.as_str();
     let nrel = if 1 <= raw.np && raw.np < raw.dim as i64 { 0 } else { 1 };
-    json!({"c": raw.c, "np": raw.np, "pr": pr, "p2": p2, "both": raw.both as i64, "dim": raw.dim,
-           "nrel": nrel, "pin": pin, "base": base})
+    let has_rate = has_id(c) || is_cross(c) || matches!(c, "DEBinomialCrossover" | "DEExponentialCrossover");
+    let pr = if matches!(ctor, "new_dev" | "new_bound" | "new_full" | "new_uniform_full") {
+        NOVAL
+    } else if has_rate {
+        pclass(raw.rate)
+    } else {
+        0
+    };
+    let p2 = if matches!(ctor, "new_uniform" | "new_uniform_full") {
+        NOVAL
+    } else if c == "PartialRandomBitstring" {
+        pclass2(raw.p)
+    } else {
+        0
+    };
+    let both = if matches!(ctor, "new_insert_single" | "new_insert_both") { NOVAL } else { raw.both as i64 };
+    let st = if has_strength(c) { raw.st } else { 0 };
+    let sibs: Vec<Value> = raw
+        .sibs
+        .iter()
+        .map(|s| json!({"id": s.id, "pr": pclass(s.rate), "st": if has_strength(c) { s.st } else { 0 }}))
+        .collect();
+    let adapt: Vec<Value> = raw
+        .adapt
+        .iter()
+        .map(|a| json!({"id": a.id, "w": a.w, "v": if a.w == 1 { pclass(a.rate) } else { a.st }}))
+        .collect();
+    json!({"c": raw.c, "ctor": raw.ctor, "id": raw.id, "np": raw.np, "pr": pr, "p2": p2, "both": both, "st": st,
+           "sibs": sibs, "adapt": adapt, "dim": raw.dim, "nrel": nrel, "pin": pin, "base": base})
 }
 
-fn res_json(k: &str, out: Value, base: Value, h: usize, pred: Value, pred2: Value) -> Value {
-    json!({"k": k, "out": out, "base": base, "h": h, "pred": pred, "pred2": pred2})
+#[allow(clippy::too_many_arguments)]
+fn res_json(
+    k: &str,
+    out: Value,
+    base: Value,
+    h: usize,
+    pred: Value,
+    pred2: Value,
+    (reg, built): (Value, Value),
+    mag: Value,
+) -> Value {
+    json!({"k": k, "out": out, "base": base, "h": h, "pred": pred, "pred2": pred2, "reg": reg, "mag": mag,
+           "built": built})
 }
 
 fn random_perm(r: &mut ChaCha8Rng, d: usize) -> Vec<usize> {
@@ -264,8 +773,17 @@ fn random_perm(r: &mut ChaCha8Rng, d: usize) -> Vec<usize> {
     p
 }
 
-fn real_pop(r: &mut ChaCha8Rng, n: usize, d: usize) -> Vec<Vec<f64>> {
-    (0..n).map(|_| (0..d).map(|_| r.gen_range(-4.0..12.0)).collect()).collect()
+/// Real population: from the box [-4, 12), or (`ext`) from the table of extreme values with
+/// pairwise different first coordinates (the individuals are told apart by their bit patterns).
+fn real_pop(r: &mut ChaCha8Rng, n: usize, d: usize, ext: bool) -> Vec<Vec<f64>> {
+    if !ext {
+        return (0..n).map(|_| (0..d).map(|_| r.gen_range(-4.0..12.0)).collect()).collect();
+    }
+    let mut first: Vec<usize> = (0..LADDER.len()).collect();
+    first.shuffle(r);
+    (0..n)
+        .map(|j| (0..d).map(|c| if c == 0 { LADDER[first[j]] } else { *LADDER.choose(r).unwrap() }).collect())
+        .collect()
 }
 
 /// Executes one component case; returns (act, res) in the shapes of `Variation.tla`.
@@ -273,32 +791,26 @@ fn exec_comp(raw: &Raw) -> (Value, Value) {
     let mut r = rng(raw.seed, 7);
     let (n, d) = (raw.n, raw.dim);
     let empty = || json!([]);
-    match raw.c.as_str() {
+    let (cs, ctor, id) = (raw.c.as_str(), raw.ctor.as_str(), raw.id.as_str());
+    match cs {
         "NormalMutation" | "UniformMutation" | "PartialRandomSpread" => {
             let problem = RealVar { dim: d, lo: -4.0, hi: 12.0 };
-            let pop = real_pop(&mut r, n, d);
-            let (c, s, rate) = (raw.c.clone(), raw.strength, raw.rate);
+            let pop = real_pop(&mut r, n, d, false);
             let o = run_comp(
                 &problem,
-                move || {
-                    Ok(match c.as_str() {
-                        "NormalMutation" => mc::NormalMutation::new::<RealVar>(s, rate),
-                        "UniformMutation" => mc::UniformMutation::new::<RealVar>(s, rate),
-                        _ => mc::PartialRandomSpread::new::<RealVar>(rate),
-                    })
-                },
-                raw.seed,
+                raw,
+                || Ok(make_real(cs, ctor, id, st_value(raw.st), raw.rate)),
+                |s| make_real(cs, "from_params", &s.id, st_value(s.st), s.rate),
                 vec![pop.clone()],
             );
+            let old = |j: usize, c: usize| pop.get(j).and_then(|s| s.get(c)).copied().unwrap_or(f64::NAN);
             let class = |j: usize, c: usize, x: f64| -> i64 {
-                let old = pop.get(j).and_then(|s| s.get(c)).copied().unwrap_or(f64::NAN);
-                if x.to_bits() == old.to_bits() {
+                if x.to_bits() == old(j, c).to_bits() {
                     return 0;
                 }
-                let ok = match raw.c.as_str() {
-                    "NormalMutation" => x.is_finite(),
-                    "UniformMutation" => (x - old).abs() <= s * (1.0 + 1e-9) + 1e-12,
-                    _ => (-4.0..12.0).contains(&x),
+                let ok = match cs {
+                    "PartialRandomSpread" => (-4.0..12.0).contains(&x),
+                    _ => x.is_finite(),
                 };
                 if ok {
                     1
@@ -306,63 +818,57 @@ fn exec_comp(raw: &Raw) -> (Value, Value) {
                     2
                 }
             };
-            let out: Vec<Vec<i64>> = o
-                .top
-                .iter()
-                .enumerate()
-                .map(|(j, s)| s.iter().enumerate().map(|(c, &x)| class(j, c, x)).collect())
-                .collect();
+            // least index of the strength table that bounds the move (5 = none does)
+            let mag = |j: usize, c: usize, x: f64| -> i64 {
+                if x.to_bits() == old(j, c).to_bits() {
+                    return 0;
+                }
+                let delta = (x - old(j, c)).abs();
+                STRENGTHS.iter().position(|s| delta <= s * (1.0 + 1e-9) + 1e-12).map(|k| k as i64 + 1).unwrap_or(5)
+            };
+            let project = |f: &dyn Fn(usize, usize, f64) -> i64| -> Vec<Vec<i64>> {
+                o.top.iter().enumerate().map(|(j, s)| s.iter().enumerate().map(|(c, &x)| f(j, c, x)).collect()).collect()
+            };
+            let out = project(&class);
+            let mags = if cs == "UniformMutation" && o.k == "ok" { grid(&project(&mag)) } else { empty() };
             let pin: Vec<Vec<i64>> = vec![vec![0; d]; n];
             (
-                act_json(raw, pclass(raw.rate), 0, grid(&pin), empty()),
-                res_json(o.k, grid(&out), empty(), o.h, empty(), empty()),
+                act_json(raw, grid(&pin), empty()),
+                res_json(o.k, grid(&out), empty(), o.h, empty(), empty(), (o.reg, o.built), mags),
             )
         }
         "BitFlipMutation" | "PartialRandomBitstring" => {
             let problem = BitsVar { dim: d };
             let pop: Vec<Vec<bool>> = (0..n).map(|_| (0..d).map(|_| r.gen_bool(0.5)).collect()).collect();
-            let (c, p, rate) = (raw.c.clone(), raw.p, raw.rate);
             let o = run_comp(
                 &problem,
-                move || {
-                    Ok(match c.as_str() {
-                        "BitFlipMutation" => mc::BitFlipMutation::new::<BitsVar>(rate),
-                        _ => mc::PartialRandomBitstring::new::<BitsVar>(p, rate),
-                    })
-                },
-                raw.seed,
+                raw,
+                || Ok(make_bits(cs, ctor, id, raw.p, raw.rate)),
+                |s| make_bits(cs, "from_params", &s.id, 0.5, s.rate),
                 vec![pop.clone()],
             );
             let bits = |v: &[Vec<bool>]| -> Vec<Vec<i64>> {
                 v.iter().map(|s| s.iter().map(|&b| b as i64).collect()).collect()
             };
-            let p2 = if raw.c == "BitFlipMutation" { 0 } else { pclass(raw.p) };
             (
-                act_json(raw, pclass(raw.rate), p2, grid(&bits(&pop)), empty()),
-                res_json(o.k, grid(&bits(&o.top)), empty(), o.h, empty(), empty()),
+                act_json(raw, grid(&bits(&pop)), empty()),
+                res_json(o.k, grid(&bits(&o.top)), empty(), o.h, empty(), empty(), (o.reg, o.built), empty()),
             )
         }
         "ScrambleMutation" | "SwapMutation" | "InversionMutation" | "InsertionMutation"
         | "TranslocationMutation" => {
             let problem = PermVar { dim: d };
             let pop: Vec<Vec<usize>> = (0..n).map(|_| random_perm(&mut r, d)).collect();
-            let (c, rate, np) = (raw.c.clone(), raw.rate, raw.np);
             let o = run_comp(
                 &problem,
-                move || match c.as_str() {
-                    "ScrambleMutation" => Ok(mc::ScrambleMutation::new::<PermVar>(rate)),
-                    "SwapMutation" => mc::SwapMutation::new::<PermVar>(np as u32),
-                    "InversionMutation" => Ok(mc::InversionMutation::new::<PermVar, ()>()),
-                    "InsertionMutation" => Ok(mc::InsertionMutation::new::<PermVar>()),
-                    _ => Ok(mc::TranslocationMutation::new::<PermVar>()),
-                },
-                raw.seed,
+                raw,
+                || make_perm(cs, ctor, id, raw.rate, raw.np),
+                |s| make_perm(cs, "from_params", &s.id, s.rate, 0).unwrap(),
                 vec![pop.clone()],
             );
-            let pr = if raw.c == "ScrambleMutation" { pclass(raw.rate) } else { 0 };
             (
-                act_json(raw, pr, 0, usgrid(&pop), empty()),
-                res_json(o.k, usgrid(&o.top), empty(), o.h, empty(), empty()),
+                act_json(raw, usgrid(&pop), empty()),
+                res_json(o.k, usgrid(&o.top), empty(), o.h, empty(), empty(), (o.reg, o.built), empty()),
             )
         }
         "NPointCrossover" | "UniformCrossover" | "CycleCrossover" => {
@@ -372,32 +878,26 @@ fn exec_comp(raw: &Raw) -> (Value, Value) {
             } else {
                 (1..=n).map(|j| (1..=d).map(|c| 10 * j + c).collect()).collect()
             };
-            let (c, pc, np, both) = (raw.c.clone(), raw.rate, raw.np, raw.both);
             let o = run_comp(
                 &problem,
-                move || {
-                    Ok(match c.as_str() {
-                        "NPointCrossover" => rc::NPointCrossover::new::<PermVar, usize>(np as usize, pc, both),
-                        "UniformCrossover" => rc::UniformCrossover::new::<PermVar, usize>(pc, both),
-                        _ => rc::CycleCrossover::new::<PermVar, usize>(pc, both),
-                    })
-                },
-                raw.seed,
+                raw,
+                || Ok(make_genex(cs, ctor, raw.np as usize, raw.rate, raw.both)),
+                no_sibling,
                 vec![pop.clone()],
             );
             (
-                act_json(raw, pclass(raw.rate), 0, usgrid(&pop), empty()),
-                res_json(o.k, usgrid(&o.top), empty(), o.h, empty(), empty()),
+                act_json(raw, usgrid(&pop), empty()),
+                res_json(o.k, usgrid(&o.top), empty(), o.h, empty(), empty(), (o.reg, o.built), empty()),
             )
         }
         "ArithmeticCrossover" => {
             let problem = RealVar { dim: d, lo: -4.0, hi: 12.0 };
-            let pop = real_pop(&mut r, n, d);
-            let (pc, both) = (raw.rate, raw.both);
+            let pop = real_pop(&mut r, n, d, raw.ext);
             let o = run_comp(
                 &problem,
-                move || Ok(rc::ArithmeticCrossover::new::<RealVar>(pc, both)),
-                raw.seed,
+                raw,
+                || make_realx(cs, ctor, 0, raw.rate, raw.both, 0.0),
+                no_sibling,
                 vec![pop.clone()],
             );
             let same = |x: &[f64], y: &[f64]| {
@@ -414,15 +914,11 @@ fn exec_comp(raw: &Raw) -> (Value, Value) {
                 let mut row2 = Vec::new();
                 for m in 0..npairs {
                     let (p1, p2) = (&pop[2 * m], &pop[2 * m + 1]);
-                    let conv = x.len() == d
-                        && (0..d).all(|c| {
-                            let (lo, hi) = (p1[c].min(p2[c]), p1[c].max(p2[c]));
-                            let tol = 1e-9 * lo.abs().max(hi.abs()).max(1.0);
-                            lo - tol <= x[c] && x[c] <= hi + tol
-                        });
+                    let conv = x.len() == d && (0..d).all(|c| hull_class(x[c], p1[c], p2[c]) == 0);
                     let cons = match o.top.get(oi + 1) {
-                        Some(y) if x.len() == d && y.len() == d => (0..d)
-                            .all(|c| close(x[c] + y[c], p1[c] + p2[c], p1[c].abs().max(p2[c].abs()))),
+                        Some(y) if x.len() == d && y.len() == d => {
+                            (0..d).all(|c| conserved(x[c], y[c], p1[c], p2[c]))
+                        }
                         _ => false,
                     };
                     row.push(conv as i64);
@@ -432,18 +928,19 @@ fn exec_comp(raw: &Raw) -> (Value, Value) {
                 pred2.push(row2);
             }
             (
-                act_json(raw, pclass(raw.rate), 0, grid(&pin), empty()),
-                res_json(o.k, grid(&out), empty(), o.h, grid(&pred), grid(&pred2)),
+                act_json(raw, grid(&pin), empty()),
+                res_json(o.k, grid(&out), empty(), o.h, grid(&pred), grid(&pred2), (o.reg, o.built), empty()),
             )
         }
         "DEMutation" => {
             let problem = RealVar { dim: d, lo: -4.0, hi: 12.0 };
-            let pop = real_pop(&mut r, n, d);
+            let pop = real_pop(&mut r, n, d, false);
             let (y, f) = (raw.np, raw.strength);
             let o = run_comp(
                 &problem,
-                move || mde::DEMutation::new::<RealVar>(y as u32, f),
-                raw.seed,
+                raw,
+                || make_realx(cs, ctor, y, 0.0, false, f),
+                no_sibling,
                 vec![pop.clone()],
             );
             let size = (2 * y.max(0) + 1) as usize;
@@ -470,8 +967,8 @@ fn exec_comp(raw: &Raw) -> (Value, Value) {
                 .collect();
             let pin: Vec<Vec<i64>> = (1..=n).map(|j| vec![j as i64; d]).collect();
             (
-                act_json(raw, 0, 0, grid(&pin), empty()),
-                res_json(o.k, grid(&out), empty(), o.h, grid(&pred), empty()),
+                act_json(raw, grid(&pin), empty()),
+                res_json(o.k, grid(&out), empty(), o.h, grid(&pred), empty(), (o.reg, o.built), empty()),
             )
         }
         "DEBinomialCrossover" | "DEExponentialCrossover" => {
@@ -480,24 +977,19 @@ fn exec_comp(raw: &Raw) -> (Value, Value) {
                 (1..=n).map(|j| (1..=d).map(|c| (100 * j + off + c) as f64).collect()).collect()
             };
             let (mutants, bases) = (lab(0), lab(50));
-            let (c, pc) = (raw.c.clone(), raw.rate);
             let o = run_comp(
                 &problem,
-                move || {
-                    Ok(match c.as_str() {
-                        "DEBinomialCrossover" => rde::DEBinomialCrossover::new::<RealVar>(pc),
-                        _ => rde::DEExponentialCrossover::new::<RealVar>(pc),
-                    })
-                },
-                raw.seed,
+                raw,
+                || make_realx(cs, ctor, 0, raw.rate, false, 0.0),
+                no_sibling,
                 vec![bases.clone(), mutants.clone()],
             );
             let ig = |v: &[Vec<f64>]| -> Vec<Vec<i64>> {
                 v.iter().map(|s| s.iter().map(|&x| as_int(x)).collect()).collect()
             };
             (
-                act_json(raw, pclass(raw.rate), 0, grid(&ig(&mutants)), grid(&ig(&bases))),
-                res_json(o.k, grid(&ig(&o.top)), grid(&ig(&o.below)), o.h, empty(), empty()),
+                act_json(raw, grid(&ig(&mutants)), grid(&ig(&bases))),
+                res_json(o.k, grid(&ig(&o.top)), grid(&ig(&o.below)), o.h, empty(), empty(), (o.reg, o.built), empty()),
             )
         }
         other => panic!("unknown component {other}"),
@@ -521,11 +1013,27 @@ fn gen_prob(r: &mut ChaCha8Rng, allow_invalid: bool) -> f64 {
     }
 }
 
-/// A random case for component `c`; `edge = Some(k)` asks for an NPointCrossover whose number of
-/// points lies outside 1..dim-1 (0, dim, dim + 1 in turn).
-fn gen_raw(c: &str, r: &mut ChaCha8Rng, edge: Option<usize>) -> Raw {
+/// A rate whose class differs from that of `own` where possible (so that obeying the wrong
+/// instance's rate is visible), else any rate.
+fn other_rate(r: &mut ChaCha8Rng, own: f64) -> f64 {
+    for _ in 0..4 {
+        let x = gen_prob(r, true);
+        if pclass(x) != pclass(own) {
+            return x;
+        }
+    }
+    gen_prob(r, true)
+}
+
+/// A random case for component `c`, built through the `k`-th of its constructors (round robin);
+/// `edge = Some(k)` asks for an NPointCrossover whose number of points lies outside 1..dim-1
+/// (0, dim, dim + 1 in turn).
+fn gen_raw(c: &str, r: &mut ChaCha8Rng, edge: Option<usize>, k: usize) -> Raw {
+    let cts = ctors(c);
     let mut raw = Raw {
         c: c.to_string(),
+        ctor: cts[k % cts.len()].to_string(),
+        id: "Global".to_string(),
         seed: r.gen::<u32>() as u64,
         n: r.gen_range(0..=5),
         dim: r.gen_range(2..=7),
@@ -534,12 +1042,18 @@ fn gen_raw(c: &str, r: &mut ChaCha8Rng, edge: Option<usize>) -> Raw {
         p: 0.0,
         both: false,
         strength: 0.0,
+        st: 0,
+        sibs: vec![],
+        adapt: vec![],
+        ext: false,
     };
     match c {
         "NormalMutation" | "UniformMutation" | "PartialRandomSpread" => {
             raw.dim = r.gen_range(1..=6);
             raw.rate = gen_prob(r, true);
-            raw.strength = *[0.125, 0.5, 2.0].choose(r).unwrap();
+            if has_strength(c) {
+                raw.st = if r.gen_range(0..12) == 0 { ST_BAD } else { r.gen_range(1..=3) };
+            }
         }
         "BitFlipMutation" | "PartialRandomBitstring" => {
             raw.dim = r.gen_range(1..=8);
@@ -564,6 +1078,7 @@ fn gen_raw(c: &str, r: &mut ChaCha8Rng, edge: Option<usize>) -> Raw {
             raw.dim = r.gen_range(1..=7);
             raw.both = r.gen_bool(0.5);
             raw.rate = gen_prob(r, false);
+            raw.ext = c == "ArithmeticCrossover" && r.gen_bool(0.5);
         }
         "DEMutation" => {
             raw.dim = r.gen_range(1..=5);
@@ -578,15 +1093,75 @@ fn gen_raw(c: &str, r: &mut ChaCha8Rng, edge: Option<usize>) -> Raw {
         }
         other => panic!("unknown component {other}"),
     }
+    if has_id(c) {
+        // identifier of the executed instance (the identifier-generic constructors only), sibling
+        // instances under other identifiers, adaptations of the parameter states
+        if matches!(raw.ctor.as_str(), "new_with_id" | "from_params") {
+            raw.id = IDS.choose(r).unwrap().to_string();
+        }
+        let mut others: Vec<&str> = IDS.iter().copied().filter(|i| *i != raw.id).collect();
+        others.shuffle(r);
+        others.truncate(*[0, 1, 1, 2].choose(r).unwrap());
+        let other_st = |r: &mut ChaCha8Rng, own: i64| -> i64 {
+            if !has_strength(c) {
+                0
+            } else if own != ST_BAD && r.gen_range(0..4) == 0 {
+                ST_BAD
+            } else {
+                // a different strength, preferably a larger one
+                *[1, 2, 3, 4].iter().filter(|s| **s != own).collect::<Vec<_>>().choose(r).copied().unwrap()
+            }
+        };
+        for o in others {
+            let rate = other_rate(r, raw.rate);
+            let st = other_st(r, raw.st);
+            raw.sibs.push(Sib { id: o.to_string(), rate, st, after: r.gen_bool(0.5) });
+        }
+        let present: Vec<String> =
+            std::iter::once(raw.id.clone()).chain(raw.sibs.iter().map(|s| s.id.clone())).collect();
+        for _ in 0..*[0, 0, 1, 1, 2].choose(r).unwrap() {
+            let id = present.choose(r).unwrap().clone();
+            if has_strength(c) && r.gen_bool(0.4) {
+                let st = other_st(r, raw.st);
+                raw.adapt.push(Adapt { id, w: 2, rate: 0.0, st });
+            } else {
+                let rate = other_rate(r, raw.rate);
+                raw.adapt.push(Adapt { id, w: 1, rate, st: 0 });
+            }
+        }
+    }
     raw
 }
 
 fn gen_fn(r: &mut ChaCha8Rng, maxlen: usize) -> Value {
     let op = *["circular_swap", "circular_swap2", "translocate_slice", "translocate_slice2", "multi_point",
-               "uniform", "cycle"]
+               "uniform", "cycle", "arith_x"]
         .choose(r)
         .unwrap();
     let n = r.gen_range(2..=maxlen);
+    if op == "arith_x" {
+        // vectors of extreme genes (ranks in LADDER) with an alpha index per position; the ends of
+        // the alpha range and equal / opposite genes are over-represented
+        let rank = |r: &mut ChaCha8Rng| r.gen_range(1..=LADDER.len());
+        let p: Vec<usize> = (0..n).map(|_| rank(r)).collect();
+        let q: Vec<usize> = p
+            .iter()
+            .map(|&x| match r.gen_range(0..8) {
+                0 => x,
+                1 => LADDER.len() + 1 - x,
+                _ => rank(r),
+            })
+            .collect();
+        let top = alphas().len() - 1;
+        let ix: Vec<usize> = (0..n)
+            .map(|_| match r.gen_range(0..6) {
+                0 => 0,
+                1 => top,
+                _ => r.gen_range(0..=top),
+            })
+            .collect();
+        return json!({"op": op, "p": p, "q": q, "ix": ix, "a": 0, "b": 0, "i": 0});
+    }
     let perm: Vec<usize> = random_perm(r, n);
     let mut act = json!({"op": op, "p": perm, "q": [], "ix": [], "a": 0, "b": 0, "i": 0});
     match op {
@@ -683,8 +1258,8 @@ impl Guarded {
                 } else {
                     let raw = Raw::from_json(job);
                     let e = || json!([]);
-                    json!({"kind": "comp", "act": act_json(&raw, pclass(raw.rate), 0, e(), e()),
-                           "res": res_json("timeout", e(), e(), 0, e(), e()), "raw": job})
+                    json!({"kind": "comp", "act": act_json(&raw, e(), e()),
+                           "res": res_json("timeout", e(), e(), 0, e(), e(), (e(), e()), e()), "raw": job})
                 }
             }
         };
@@ -695,6 +1270,18 @@ impl Guarded {
 }
 
 pub fn main(args: &Args) -> usize {
+    // the tables the spec reads as ranks / indices must be strictly increasing
+    assert!(LADDER.windows(2).all(|w| w[0] < w[1]) && LADDER.iter().all(|x| x.is_finite()));
+    assert!(alphas().windows(2).all(|w| w[0] < w[1]) && alphas()[0] == 0.0 && alphas()[8] == 1.0);
+    assert!(STRENGTHS.windows(2).all(|w| w[0] < w[1]));
+    if args.mode == "ctors" {
+        // the constructor sweep of this driver, for the completeness check of checks/c13.py
+        let mut out = Out::create(&args.str("out"));
+        for c in COMPS {
+            out.emit(&json!({"c": c, "ctors": ctors(c)}));
+        }
+        return out.finish();
+    }
     let mut out = Out::create(&args.str("out"));
     let mut g = Guarded::new(args.num("limit", 5));
     match args.mode.as_str() {
@@ -721,7 +1308,7 @@ pub fn main(args: &Args) -> usize {
                 let mut r = rng(seed, 100 + ci as u64);
                 reset(&mut out, run);
                 for i in 0..per {
-                    g.emit(&mut out, run, i + 1, &gen_raw(c, &mut r, None).to_json());
+                    g.emit(&mut out, run, i + 1, &gen_raw(c, &mut r, None, i).to_json());
                 }
                 run += 1;
             }
@@ -738,7 +1325,7 @@ pub fn main(args: &Args) -> usize {
             let mut r = rng(args.seed(), 98);
             for run in 0..args.num("n", 6) {
                 reset(&mut out, run);
-                g.emit(&mut out, run, 1, &gen_raw("NPointCrossover", &mut r, Some(run as usize)).to_json());
+                g.emit(&mut out, run, 1, &gen_raw("NPointCrossover", &mut r, Some(run as usize), 0).to_json());
             }
         }
         other => panic!("unknown mode {other}"),
